@@ -11,6 +11,7 @@ import (
 	"encoding/binary"
 	"encoding/hex"
 	"fmt"
+	"github.com/segmentio/encoding/proto"
 	"math"
 	"reflect"
 	"sort"
@@ -93,6 +94,47 @@ var nonZeroU32 = []uint32{1, math.MaxUint32, 1 << 31, 16384, 127}
 var nonZeroF32 = []float32{1.5, float32(math.Copysign(0, -1)), float32(math.Inf(1)), math.SmallestNonzeroFloat32, -2}
 var nonZeroF64 = []float64{1.5, math.Copysign(0, -1), math.Inf(-1), math.SmallestNonzeroFloat64, 1e300}
 var nonZeroStr = []string{"a", "héllo", strings.Repeat("x", 127), strings.Repeat("y", 128), "\x00"}
+
+// Types with user-supplied marshalling methods (kinds "pmsg", "cmsg"; "rawm" is proto.RawMessage): a struct
+// implementing proto.Message, and one implementing the gogo-style custom interface.  Both encode themselves
+// as small valid messages, so the reference implementation sees a bytes / nested-message field.
+type PairMsg struct{ A, B uint8 }
+
+func (p PairMsg) Size() int { return 4 }
+func (p PairMsg) Marshal(b []byte) error {
+	if len(b) < 4 {
+		return fmt.Errorf("PairMsg.Marshal: %d bytes", len(b))
+	}
+	b[0], b[1], b[2], b[3] = 0x08, p.A&0x7f, 0x10, p.B&0x7f
+	return nil
+}
+func (p *PairMsg) Unmarshal(b []byte) error {
+	if len(b) != 4 || b[0] != 0x08 || b[2] != 0x10 {
+		return fmt.Errorf("PairMsg.Unmarshal: % x", b)
+	}
+	p.A, p.B = b[1], b[3]
+	return nil
+}
+
+type CustMsg struct{ X uint8 }
+
+func (c CustMsg) Size() int { return 2 }
+func (c CustMsg) MarshalTo(b []byte) (int, error) {
+	if len(b) < 2 {
+		return 0, fmt.Errorf("CustMsg.MarshalTo: %d bytes", len(b))
+	}
+	b[0], b[1] = 0x08, c.X&0x7f
+	return 2, nil
+}
+func (c *CustMsg) Unmarshal(b []byte) error {
+	if len(b) != 2 || b[0] != 0x08 {
+		return fmt.Errorf("CustMsg.Unmarshal: % x", b)
+	}
+	c.X = b[1]
+	return nil
+}
+
+func isBlobKind(kind string) bool { return kind == "rawm" || kind == "pmsg" || kind == "cmsg" }
 
 // lift maps (kind, abstract id) to a concrete Go value; salt rotates through the boundary tables
 //
@@ -221,6 +263,21 @@ func (l lift) scalar(kind string, id int) any {
 			return []byte{}
 		}
 		return []byte(l.str(id))
+	case "rawm":
+		if id == 0 {
+			return proto.RawMessage{}
+		}
+		return proto.RawMessage{0x08, byte(1 + (id+l.salt)%120), 0x12, 0x01, 'r'}
+	case "pmsg":
+		if id == 0 {
+			return PairMsg{}
+		}
+		return PairMsg{A: uint8(1 + (id*7+l.salt)%120), B: uint8(id % 100)}
+	case "cmsg":
+		if id == 0 {
+			return CustMsg{}
+		}
+		return CustMsg{X: uint8(1 + (id*5+l.salt)%120)}
 	}
 	if n := arrLen(kind); n > 0 {
 		// byte arrays: a single non-zero byte, at the end (id 1), at the start (id 2) or at a salted position
@@ -262,6 +319,12 @@ func canonScalar(kind string, v any) string {
 		return fmt.Sprintf("d%016x", math.Float64bits(x))
 	case string:
 		return "s" + hex.EncodeToString([]byte(x))
+	case proto.RawMessage:
+		return "b" + hex.EncodeToString(x)
+	case PairMsg:
+		return "b" + hex.EncodeToString([]byte{0x08, x.A & 0x7f, 0x10, x.B & 0x7f})
+	case CustMsg:
+		return "b" + hex.EncodeToString([]byte{0x08, x.X & 0x7f})
 	case []byte:
 		if n := arrLen(kind); n > 0 && len(x) == 0 {
 			return "b" + strings.Repeat("00", n)
@@ -307,6 +370,12 @@ func scalarType(kind string) reflect.Type {
 		return reflect.TypeOf("")
 	case "byt":
 		return reflect.TypeOf([]byte(nil))
+	case "rawm":
+		return reflect.TypeOf(proto.RawMessage(nil))
+	case "pmsg":
+		return reflect.TypeOf(PairMsg{})
+	case "cmsg":
+		return reflect.TypeOf(CustMsg{})
 	}
 	if n := arrLen(kind); n > 0 {
 		return reflect.ArrayOf(n, reflect.TypeOf(byte(0)))
@@ -331,7 +400,7 @@ func tagWire(kind string) string {
 		return "fixed32"
 	case "x64", "dbl":
 		return "fixed64"
-	case "str", "byt":
+	case "str", "byt", "rawm", "pmsg", "cmsg":
 		return "bytes"
 	}
 	if isMsgKind(kind) || arrLen(kind) > 0 {
@@ -591,6 +660,12 @@ func (l lift) scalarBytes(kind string, id int) []byte {
 		return []byte(v)
 	case []byte:
 		return v
+	case proto.RawMessage:
+		return v
+	case PairMsg:
+		return []byte{0x08, v.A & 0x7f, 0x10, v.B & 0x7f}
+	case CustMsg:
+		return []byte{0x08, v.X & 0x7f}
 	}
 	if rv := reflect.ValueOf(l.scalar(kind, id)); rv.Kind() == reflect.Array {
 		b := make([]byte, rv.Len())
@@ -675,7 +750,7 @@ func protoTypeOf(kind string) descriptorpb.FieldDescriptorProto_Type {
 		return descriptorpb.FieldDescriptorProto_TYPE_DOUBLE
 	case "str":
 		return descriptorpb.FieldDescriptorProto_TYPE_STRING
-	case "byt":
+	case "byt", "rawm", "pmsg", "cmsg":
 		return descriptorpb.FieldDescriptorProto_TYPE_BYTES
 	}
 	if arrLen(kind) > 0 {
@@ -768,7 +843,7 @@ func refScalar(kind string, v protoreflect.Value) string {
 		return fmt.Sprintf("d%016x", math.Float64bits(v.Float()))
 	case "str":
 		return "s" + hex.EncodeToString([]byte(v.String()))
-	case "byt":
+	case "byt", "rawm", "pmsg", "cmsg":
 		return "b" + hex.EncodeToString(v.Bytes())
 	}
 	if n := arrLen(kind); n > 0 {
